@@ -309,7 +309,7 @@ func (q qiDecoder) value(v reflect.Value) error {
 			return e.Decode(q)
 		}
 		_, ok = i.(value.Value)
-		if ok {
+		if ok || (v.IsNil() && v.CanSet() && v.Type().Name() == "Value") {
 			m, err := value.NewValue(q.r)
 			if err != nil {
 				return err
